@@ -761,6 +761,8 @@ class MonoRow:
         return self
 
     def sx_any(self, ex, node):
+        if isinstance(self.D, int):
+            return z3.Or(*[expo(self.m, d) != 0 for d in range(self.D)]) if self.D else False
         return z3.Not(mzero(self.m, self.D))
 
     def sx_compare(self, ex, op, other, node, reflected):
